@@ -103,6 +103,54 @@
             None => true,
             Some(s) => exists|i: int| 0 <= i < s.resources@.len() && rule_admits_asn(#[trigger] s.resources@[i], aspa.customer),
         },
+//@ fn Output::update_from_query#include
+//@ spec
+    ensures
+        // C21: an `include` parameter switches more-specifics on iff one of its comma-separated
+        // values is `more-specifics` - whatever selectors have or have not been seen so far
+        // (parameter order does not matter) - and never switches it off
+        final(selection).more_specifics == (old(selection).more_specifics
+            || exists|i: int| 0 <= i < value.parts_spec(',').len() && #[trigger] value.parts_spec(',')[i] == "more-specifics"),
+        // C21: the selectors are untouched
+        final(selection).resources@ == old(selection).resources@,
+//@ entry
+        let ghost parts = value.parts_spec(',');
+//@ loopvar 1 it
+//@ loop 1
+            invariant
+                it.iter.obeys_prophetic_iter_laws(),
+                it.seq() == parts,
+                0 <= it.index@ <= parts.len(),
+                // C21
+                selection.more_specifics == (old(selection).more_specifics
+                    || exists|i: int| 0 <= i < it.index@ && #[trigger] parts[i] == "more-specifics"),
+                selection.resources@ == old(selection).resources@,
+//@ fn Output::update_from_query#exclude
+//@ spec
+    ensures
+        // C21: an `exclude` parameter switches a payload type off iff it names it, never on
+        final(self).route_origins == (old(self).route_origins
+            && !exists|i: int| 0 <= i < value.parts_spec(',').len() && #[trigger] value.parts_spec(',')[i] == "routeOrigins"),
+        final(self).router_keys == (old(self).router_keys
+            && !exists|i: int| 0 <= i < value.parts_spec(',').len() && #[trigger] value.parts_spec(',')[i] == "routerKeys"),
+        final(self).aspas == (old(self).aspas
+            && !exists|i: int| 0 <= i < value.parts_spec(',').len() && #[trigger] value.parts_spec(',')[i] == "aspas"),
+        final(self).selection == old(self).selection,
+//@ entry
+        let ghost parts = value.parts_spec(',');
+//@ loopvar 1 it
+//@ loop 1
+            invariant
+                it.iter.obeys_prophetic_iter_laws(),
+                it.seq() == parts,
+                0 <= it.index@ <= parts.len(),
+                self.route_origins == (old(self).route_origins
+                    && !exists|i: int| 0 <= i < it.index@ && #[trigger] parts[i] == "routeOrigins"),
+                self.router_keys == (old(self).router_keys
+                    && !exists|i: int| 0 <= i < it.index@ && #[trigger] parts[i] == "routerKeys"),
+                self.aspas == (old(self).aspas
+                    && !exists|i: int| 0 <= i < it.index@ && #[trigger] parts[i] == "aspas"),
+                self.selection == old(self).selection,
 //@ global
 // ---- written from the documented selection (manual: select-asn, select-prefix,
 // more-specifics), not from the code ----
